@@ -63,7 +63,8 @@ def pcanon_cfg(v):
         if name == 'LabObjDerived':
             return ['obj', 'LabObjDerived', {'root': pcanon_cfg(kw['root'])}]
         if name == 'LabObjVar':
-            return ['obj', 'LabObjVar', {'a': pcanon_cfg(kw['a']), 'options': pcanon_cfg({k: x for k, x in kw.items() if k != 'a'})}]
+            return ['obj', 'LabObjVar', {'a': pcanon_cfg(kw['a']), 'options': pcanon_cfg({k: x for k, x in kw.items() if k not in ('a', 'shape')}),
+                                         'shape': pcanon_cfg(list(kw.get('shape', (4, 3))))}]
         if name == 'LabChainObj':
             return ['obj', 'LabChainObj', {'a': pcanon_cfg(kw['a']), 'inited': True}]
         return ['obj', name, {'x': pcanon_cfg(kw['x'])}]
@@ -96,7 +97,8 @@ def received_cfg(v, gv):
         if name == 'LabObjDerived':
             return ['obj', 'LabObjDerived', {'root': received_cfg(kw['root'], gv)}]
         if name == 'LabObjVar':
-            return ['obj', 'LabObjVar', {'a': received_cfg(kw['a'], gv), 'options': received_cfg({k: x for k, x in kw.items() if k != 'a'}, gv)}]
+            return ['obj', 'LabObjVar', {'a': received_cfg(kw['a'], gv), 'options': received_cfg({k: x for k, x in kw.items() if k not in ('a', 'shape')}, gv),
+                                         'shape': received_cfg(list(kw.get('shape', (4, 3))), gv)}]
         if name == 'LabChainObj':
             return ['obj', 'LabChainObj', {'a': received_cfg(kw['a'], gv), 'inited': True}]
         return ['obj', name, {'x': received_cfg(kw['x'], gv)}]
